@@ -460,7 +460,11 @@ PRIORITY = ["backslash", "lf", "cr", "tab", "unicode_space", "quote", "space", "
 # Rust's char::is_whitespace (what split_string_v2 treats as a separator) minus the members of SIGMA
 UNICODE_SPACE = set("\x0b\x0c\x85\xa0\u1680\u2028\u2029\u202f\u205f\u3000") | {chr(c) for c in range(0x2000, 0x200b)}
 # deterministic extras outside SIGMA (same three roles): other white space the argument tokenizer treats as a separator
-EXTRA_VALUES = ["\xa0", "a\xa0b", "\u2003x", "\u3000", "\x0c", "a\x0bb", "\x85", "\u2028", " \xa0", "\u200b"]
+EXTRA_VALUES = ["\xa0", "a\xa0b", "\u2003x", "\u3000", "\x0c", "a\x0bb", "\x85", "\u2028", " \xa0", "\u200b",
+                # characters that a listing format could give a meaning (comment markers, separators, record
+                # markers of the binary format), alone and behind escaped quotes / backslashes
+                ";", "a;b", "\";", "a\";b", "\"\";", "\"a\";\"b", "\\;", "\\\";", "#", "\"#x", "a#\"b", "//", "\"//x", "--", "/*x*/",
+                "'", "\"'", ",", "\"x\",y", ":", "{", "}", "$", "%", "e", "f x", "-", "-1", "0", "\";\";", "; \"", ";;\"\""]
 ESC = {'"': '\\"', "\\": "\\\\", "\n": "\\n", "\r": "\\r", "\t": "\\t"}
 ROLES = ("print", "mapkey", "assert")
 END = "@@end"
@@ -708,6 +712,20 @@ def project_cases(rng, n_random):
         for layout in ("flat", "sub", "nested"):
             for forms in ("ns", "names", "mixed"):
                 cases.append(("project/%dmod/%s/%s" % (n, layout, forms), gen_project(n, layout, forms, rng)))
+    # an IMPORTED module (the only kind `run` reads back through the file loader's code path) whose instruction
+    # arguments are long runs of 2-, 3- and 4-byte characters behind 0-3 ASCII bytes: every fixed byte offset falls
+    # inside a character for some of them
+    for width, ch in ((2, "é"), (3, "日"), (4, "😀")):
+        lines = []
+        for pad in range(0, 4):
+            lines.append('export s%d_%d: str = "%s"' % (width, pad, "a" * pad + ch * 40))
+        lines.append('export all%d: fn() -> int = fn() -> int {\n  return %s\n}' % (
+            width, " + ".join("s%d_%d.len()" % (width, pad) for pad in range(4))))
+        main = "import lib\n" + "".join("print lib.s%d_%d\n" % (width, pad) for pad in range(4)) + "print lib.all%d()\n" % width
+        cases.append(("project/long_nonascii_arguments/utf8x%d" % width, {"main.ms": main, "lib.ms": "\n".join(lines) + "\n"}))
+        main2 = "import %s from lib\n" % ", ".join("s%d_%d" % (width, pad) for pad in range(4)) + \
+                "".join("print s%d_%d\n" % (width, pad) for pad in range(4))
+        cases.append(("project/long_nonascii_arguments/utf8x%d/names" % width, {"main.ms": main2, "lib.ms": "\n".join(lines) + "\n"}))
     for _ in range(n_random):
         n, layout, forms = rng.choice((2, 3, 4)), rng.choice(sorted(LAYOUTS)), rng.choice(("ns", "names", "mixed"))
         cases.append(("project/%dmod/%s/%s" % (n, layout, forms), gen_project(n, layout, forms, rng)))
